@@ -104,12 +104,20 @@ fn value_for<D: Doc>(seed: u64, vi: u64, tier: Tier) -> Option<PrepDocLite<D>> {
     if b.len() + 256 > (1 << 17) - 4096 {
         return None;
     }
-    Some(PrepDocLite { v, b, schema })
+    let mut canon_v = Vec::new();
+    v.canon(&mut canon_v);
+    let rt = |eps: bool| matches!(run_one::<D>(&b, eps), Ok(Out::Value(c)) if c == canon_v);
+    let round_trip_ok = rt(false) && rt(true);
+    Some(PrepDocLite { v, b, schema, round_trip_ok })
 }
 struct PrepDocLite<D: Doc> {
     v: D,
     b: Vec<u8>,
     schema: epserde::ser::Schema,
+    /// the unmodified stream deserializes, in both modes, to the value that was serialized: required before
+    /// *nested* tag positions are attacked (an unrelated round-trip defect in another field would otherwise
+    /// show up as a wrong error for the foreign tag)
+    round_trip_ok: bool,
 }
 
 fn tag_rows(schema: &epserde::ser::Schema, b: &[u8]) -> Vec<TagRow> {
@@ -190,7 +198,16 @@ fn exec<D: Doc>(p: &PrepDocLite<D>, rows: &[TagRow], w: &[Option<Vec<u64>>], tag
     let what = format!("{} of a {} stream whose {} tag at offset {} (written {}) is set to {}", mode, D::NAME, FAMILIES[fam].0.trim_end_matches('<'), row.offset, row.original, tag);
     let mut canon_v = Vec::new();
     p.v.canon(&mut canon_v);
+    if row.nested && !p.round_trip_ok {
+        return Ok(None);
+    }
     if tag == row.original {
+        if row.nested {
+            // "maps back to the same variant with the same payload" is judged where the document *is* the sum
+            // type (top-level tag); at nested positions the whole-document comparison would also judge the
+            // unrelated fields around it
+            return Ok(None);
+        }
         // the tag written for this variant must map back to the same variant and payload
         match run_one::<D>(&p.b, eps) {
             Err(pm) => Err(Violation::new("C15/panic", format!("{}: panicked ({})", what, pm))),
